@@ -348,7 +348,7 @@ func init() {
 			}
 			// fault seeds: the initial state (A uploads everything) and the state after "build on A" (B downloads everything)
 			for _, n := range next {
-				if len(n.hist) == 1 && n.hist[0] == "build on A" {
+				if (len(n.hist) == 1 && n.hist[0] == "build on A") || (len(n.hist) == 2 && n.hist[0] == "build on A with the remote disabled" && n.hist[1] == "edit input") {
 					faultSeeds = append(faultSeeds, n)
 				}
 			}
@@ -367,7 +367,13 @@ func init() {
 		fresh, _ := newUniverse(base)
 		seeds := []seed{{"A uploads a cold build", &c08node{u: fresh, localA: map[string]bool{}, localB: map[string]bool{}, remoteM: map[string]bool{}}, ops[0]}}
 		for _, fs := range faultSeeds {
-			seeds = append(seeds, seed{"B restores everything from the remote", fs, ops[1]})
+			if fs.hist[0] == "build on A" {
+				seeds = append(seeds, seed{"B restores everything from the remote", fs, ops[1]})
+			} else {
+				// after a local-only build and an edit: the rebuilt targets reference blobs that are in A's
+				// local cache but not in the remote; the write-through decision depends on the remote HEAD
+				seeds = append(seeds, seed{"A uploads blobs that already exist locally", fs, ops[0]})
+			}
 		}
 		for _, sd := range seeds {
 			// log the remote operations of the fault-free run
